@@ -164,6 +164,12 @@ def child_main(prop, tier, seed, shard, nshards, out, only=None):
     hits = {}
     install_anchor_counter(getattr(mod, "ANCHORS", []), hits)
     status = "ok"
+    cov = None
+    if os.environ.get("VERIF_COVERAGE"):  # diagnostics only (tools/coverage.sh): which library lines the workload reaches
+        import coverage
+        cov = coverage.Coverage(data_file=os.path.join(os.environ["VERIF_COVERAGE"], "cov"), data_suffix=True,
+                                source=[os.path.join(REPO, "commonroad")])
+        cov.start()
     try:
         mod.run(ctx)
     except Inconclusive as e:
@@ -171,6 +177,9 @@ def child_main(prop, tier, seed, shard, nshards, out, only=None):
     except Exception:
         status = "harness-error"
         ctx.note("harness_traceback", traceback.format_exc()[-4000:])
+    if cov is not None:
+        cov.stop()
+        cov.save()
     res = ctx.dump()
     res["anchor_hits"] = hits
     res["status"] = status
